@@ -132,7 +132,29 @@ func runOne(p *Property, sc *Scenario, d RunDesc, thorough bool) (res RunResult)
 				e.simSpan = time.Since(start)
 			})
 		}()
-		<-bodyDone
+		// Wait for the scenario to finish. If it does not within seconds of real time
+		// the bubble may be frozen: a library goroutine woken by a library timer now
+		// waits on a lock held by a goroutine the engine has parked (e.g. a stalled
+		// write), which stops the fake clock while the engine waits for it.
+		frozen := ""
+	waitBody:
+		for waited := 0; ; waited++ {
+			select {
+			case <-bodyDone:
+				break waitBody
+			case <-time.After(100 * time.Millisecond):
+			}
+			if waited >= 30 && waited%5 == 0 {
+				if f := frozenBubble(); f != "" {
+					if frozen == f {
+						e.Fail(p.ID+"/frozen/"+f, "a library goroutine waits on a lock held across an operation the transport has stalled (blocked in %s); nothing can make progress and the fake clock is stopped", f)
+						res.Abandoned, res.Leftover = true, true
+						goto bubbleOver
+					}
+					frozen = f
+				}
+			}
+		}
 		// The bubble ends when its goroutines have exited or are durably blocked.
 		// Goroutines stuck on a lock nobody will release (only ever the case after
 		// a violation) would keep it open forever: abandon it after a short wait.
@@ -154,6 +176,7 @@ func runOne(p *Property, sc *Scenario, d RunDesc, thorough bool) (res RunResult)
 	} else {
 		body()
 	}
+bubbleOver:
 	res.Desc = d
 	res.Desc.Scen = sc.Name
 	res.Viol = e.viol
@@ -347,4 +370,39 @@ func (e *Env) Step() bool {
 	e.steps++
 	e.T.Mark()
 	return e.steps <= e.maxStep
+}
+
+// frozenBubble inspects all goroutines (called from outside any bubble). It
+// returns the library function a goroutine is blocked in when some bubble has
+// its engine waiting in Env.Advance while a sibling waits, non-durably, on a
+// lock inside go-diameter code; otherwise "".
+func frozenBubble() string {
+	gs := dumpGoroutines()
+	engines := map[string]bool{}
+	for _, g := range gs {
+		if g.bubble && strings.Contains(g.body, "dsim.(*Env).Advance") {
+			engines[g.bubbleID] = true
+		}
+	}
+	for _, g := range gs {
+		if !g.bubble || !engines[g.bubbleID] || g.durable {
+			continue
+		}
+		if !strings.HasPrefix(g.state, "sync.") {
+			continue
+		}
+		for _, line := range strings.Split(g.body, "\n") {
+			if i := strings.Index(line, "github.com/fiorix/go-diameter/v4/"); i == 0 {
+				fn := line[len("github.com/fiorix/go-diameter/v4/"):]
+				if j := strings.IndexByte(fn, '('); j > 0 && strings.HasSuffix(fn[:j], ".") == false {
+					// keep "diam.(*response).Close"
+				}
+				if k := strings.LastIndexByte(fn, '('); k > 0 {
+					fn = fn[:k]
+				}
+				return fn
+			}
+		}
+	}
+	return ""
 }
